@@ -748,9 +748,9 @@ impl Engine for Imports {
     }
     fn units(&self, ctx: &Ctx) -> u64 {
         if ctx.tier == "thorough" {
-            20_000
+            60_000
         } else {
-            1_600
+            6_000
         }
     }
     fn run_unit(&self, ctx: &Ctx, unit: u64, progress: Progress) -> UnitResult {
